@@ -1,7 +1,7 @@
 (** * C13 - Namespace prefixes and internal identifiers are one-to-one, permanent, race-free.
     Only statements, each closed by [exact <lemma>] (or a short wrapper), with [Print Assumptions]. *)
 From Coq Require Import List NArith Bool Arith Lia.
-From DH Require Import Model.Namespace Model.Ids Proofs.NamespaceProofs Proofs.IdsProofs Check.C13Check Proofs.C13CheckProofs.
+From DH Require Import Model.Namespace Model.Ids Proofs.NamespaceProofs Proofs.IdsProofs Check.C13Check Proofs.C13CheckProofs Proofs.C13LinkProofs.
 Import ListNotations.
 Open Scope N_scope.
 
@@ -144,6 +144,38 @@ Theorem C13_refuted_ctx_lost :
 Proof. exact refuted_ctx_lost. Qed.
 Print Assumptions C13_refuted_ctx_lost.
 
+(** F13c, exact characterisation.  (1) A restart or crash loses exactly the pairs that were still
+    pending in the id transaction: a committed pair stays the answer, a pending pair is gone and its
+    URI is given a strictly larger id - for every reachable state, either variant.  (2) On the same
+    state the pinned contextual store (created while its parent had no id transaction - the normal
+    case) commits NOTHING and reports success, the repaired one makes the whole view durable. *)
+Theorem C13_restart_loses_exactly_pending : forall L m ops crash u i, 1 <= L -> u <> [] ->
+  let st := fst (id_run m L ops (id_init L)) in
+  In (u, i) (view st) ->
+  let st2 := id_restart L crash st in
+  (In (u, i) (disk st) -> snd (assert_id L u st2) = RId i false)
+  /\ (In (u, i) (pend st) -> exists j, snd (assert_id L u st2) = RId j true /\ i < j).
+Proof.
+  intros L m ops crash u i HL Hne st Hin.
+  apply (restart_loses_exactly_pending L HL crash st u i); try assumption.
+  exact (ids_reachable_inv L HL m ops).
+Qed.
+Print Assumptions C13_restart_loses_exactly_pending.
+
+Theorem C13_ctx_commit_variants : forall k st,
+  idinv st -> alive st -> nth_error (ctxs st) k = Some None ->
+  (fst (commit_ctx CtxCopyPtr k st) = st /\ snd (commit_ctx CtxCopyPtr k st) = ROk)
+  /\ (pend (fst (commit_ctx CtxShared k st)) = [] /\ disk (fst (commit_ctx CtxShared k st)) = view st
+      /\ snd (commit_ctx CtxShared k st) = ROk).
+Proof. exact ctx_commit_variants. Qed.
+Print Assumptions C13_ctx_commit_variants.
+
+(** the hypotheses of the two statements are met by a reachable state with a pending id *)
+Example C13_lost_nonvacuous :
+  let st := fst (id_run CtxCopyPtr 1000 [INewCtx; IAssert u1] (id_init 1000)) in
+  nth_error (ctxs st) 0 = Some None /\ pend st = [(u1, 0)] /\ mref st = MOpen.
+Proof. vm_compute. repeat split; reflexivity. Qed.
+
 (** F13d: the pinned contextual store commits the transaction its parent still points to: the parent
     panics on the next assertion and cannot commit *)
 Theorem C13_refuted_ctx_poison :
@@ -152,19 +184,46 @@ Theorem C13_refuted_ctx_poison :
 Proof. exact refuted_ctx_poison. Qed.
 Print Assumptions C13_refuted_ctx_poison.
 
-(** Tie to the correspondence check (partial): on a case where the implementation agrees with the
-    repaired model, every op was answered, no write panicked or hit a discarded transaction and every
-    context read shows what was fetched.
-    Full statement, NOT proved here: [agree v_fixed c = true -> spec_ok c = true].  Gap: [spec_ok]
-    additionally judges every handed-out prefix / CURIE / internal id against the last dump of the
-    tables; at model level that is C13_permanent, C13_roundtrip, C13_ids_committed_stable and
-    C13_ids_stable_fixed, but the lifting of those to the batch-level [wrun] (ids returned by
-    [run_ents] are in the view that the following commit makes durable) is not mechanised.  The
-    check evaluates [spec_ok] on every case and the engine reports a spec failure under the fixed
-    variant as an oracle inconsistency. *)
+(** Tie to the correspondence check, FULL: on a case whose op sequence ends with a dump (every
+    generated case does - [spec_ok] judges all events against the last dump, see
+    C13_ends_dump_needed) and on which the implementation agrees with the repaired model, the whole
+    executable spec holds on the implementation's observations: every handed-out prefix, CURIE and
+    internal id still means the same in the last dump, all dumps are mutually inverse, snapshots hold,
+    handed-out CURIEs stay expandable, nothing panicked or hit a discarded transaction. *)
+Theorem C13_agree_implies_spec : forall c,
+  ends_dump (c_ops c) = true -> agree v_fixed c = true -> spec_ok c = true.
+Proof. exact agree_fixed_spec. Qed.
+Print Assumptions C13_agree_implies_spec.
+
+(** the trace-local part needs no hypothesis on the op sequence *)
 Theorem C13_agree_implies_spec_partial : forall c, agree v_fixed c = true -> spec_core c = true.
 Proof. exact agree_fixed_spec_core. Qed.
 Print Assumptions C13_agree_implies_spec_partial.
+
+(** the batch-level run of the repaired model, for every lease size >= 1 and every op sequence from
+    the driver's initial store: invariants hold at the end, every dump is mutually inverse, and every
+    event is consistent with the tables of the final world *)
+Theorem C13_wrun_fixed : forall L dss ops, 1 <= L ->
+  let w0 := w_setup v_fixed L dss in
+  let w' := fst (wrun v_fixed L ops w0) in
+  winv w' /\ wext w0 w' /\ forallb dump_ok (snd (wrun v_fixed L ops w0)) = true
+  /\ forallb (spec_event (tables_of w')) (combine ops (snd (wrun v_fixed L ops w0))) = true.
+Proof.
+  intros L dss ops HL w0 w'.
+  destruct (wrun_strong L HL ops w0 (winv_setup L HL dss)) as (A & B & C & D).
+  split; [exact A|]. split; [exact B|]. split; [exact C|]. apply D, text_final, A.
+Qed.
+Print Assumptions C13_wrun_fixed.
+
+(** the hypothesis of C13_agree_implies_spec is met by the witness histories and is needed: an
+    assertion after the last dump is judged against tables that cannot contain it *)
+Example C13_ends_dump_nonvacuous :
+  map ends_dump [wit_alias; wit_discarded; wit_poison; wit_lost] = [true; true; true; true].
+Proof. vm_compute. reflexivity. Qed.
+Example C13_ends_dump_needed :
+  let ops := [HDump; HNs (NCompact x_uri)] in
+  ends_dump ops = false /\ verdict v_fixed ops = false /\ verdict v_fixed (ops ++ [HDump]) = true.
+Proof. vm_compute. repeat split; reflexivity. Qed.
 
 (** non-vacuity / regression witnesses: the executable spec separates the variants on the witness
     histories that lib/props/c13.py replays on the real code *)
